@@ -513,7 +513,10 @@ class Normalizer:
           if isinstance(x, ast.Name):
             env.set(x.id, self.subscript(wrap(it), C(k)))
         return
-    raise AnalysisError('cannot bind loop target %s over %s' % (ast.unparse(tgt), show(it)))
+    # unknown iteration shape: the loop variables become opaque per-iteration symbols
+    for x in ast.walk(tgt):
+      if isinstance(x, ast.Name):
+        env.set(x.id, ('f', x.id))
 
 
 def show_abs(t, depth=3):
